@@ -72,6 +72,9 @@ def candidates(mach):
             out.append({"op": "set_ref", "space": p, "name": bad, "value": {"t": "int", "v": 5}, "why": "badname"})
         for bad in BAD_OBJECTS:
             out.append({"op": "new_cells", "space": p, "name": "zz", "src": "<%s>" % bad, "badobj": bad, "why": "malformed-object"})
+            # the same objects as a parameter formula, over an existing one or as the first
+            out.append({"op": "set_sformula", "space": p, "sfsrc": "<%s>" % bad, "badobj": bad, "formula": {"params": [], "ret": None},
+                        "why": "malformed-object-sformula" + ("-over-existing" if s.formula is not None else "")})
         for bad in BAD_SOURCES:
             out.append({"op": "new_cells", "space": p, "name": "zz", "src": bad, "why": "malformed"})
             out.append({"op": "set_sformula", "space": p, "sfsrc": bad, "formula": {"params": [], "ret": None}, "why": "malformed"})
